@@ -205,6 +205,11 @@ def run(ctx, widen=False):
         ctx.notes.append("%d renderings parsed to a tape different from docgen.flatten (C01 territory); the real tape was used" % flat_bad)
 
     # ---- phase 2: write_tape, model vs implementation (release and debug), exact bytes + final state queries
+    # >>> w_wr (wave 5): the extracted classifier K (WriterMix.k14_class) of every document, by identity
+    from props import W5
+    kcl = dict(zip([id(w[0]) for w in work], W5.kclasses(ctx, [w[0] for w in work], stream="kclass14")))
+    k14 = lambda d: (kcl.get(id(d)) or (None, None, None, None))[3]      # k14p_class: K on the tape the real parser produces
+    # <<< w_wr
     wcases, meta = [], []
     for (d, rtable, x, tape) in work:
         for cfg in cfgs(rng, 1):
@@ -223,7 +228,7 @@ def run(ctx, widen=False):
         elif not o.startswith("ok "):
             _fail(ctx, "write-tape-err", "write_tape on a parsed tape: %s" % o[:60], [c], [o], "ok")
         elif o.split(" ")[2] != "0.1":
-            _fail(ctx, "write-tape-state-param-value" if has_param_value(meta[k][0]) else "write-tape-state", "after write_tape of a complete document depth()/expecting_key() are %s, not 0/true" % o.split(" ")[2], [c], [o], "0.1")
+            _fail(ctx, "write-tape-state-param-value" if k14(meta[k][0]) == 1 else "write-tape-state", "after write_tape of a complete document depth()/expecting_key() are %s, not 0/true" % o.split(" ")[2], [c], [o], "0.1")
     dcases = wcases[:ctx.scale(1500, 8000)]
     dcases = ["\t".join([p if j != 1 else p[:-1] + "d" for j, p in enumerate(c.split("\t"))]) for c in dcases]
     ctx.correspond("write_tape_debug", dcases, nontrivial=nt, profile="debug")
@@ -245,17 +250,23 @@ def run(ctx, widen=False):
         if not rtable:
             ctx.count("not_roundtrippable_docs")
             continue
-        pv = has_param_value(d)
+        # w_wr (wave 5): failures are classified by the extracted K (Props/C14_mixcont.v), not by ad-hoc matching:
+        # class 0 (outside K: C14_mixcont_write_is_layout applies) or unclassifiable => a violation
+        kc = k14(d)
+        ctx.count("rt_class_%s" % kc)
         if r.get("t2") != r.get("t1") or "t1" not in r:
-            key = "rt-param-value" if pv else ("rt-mixed-nested-op" if has_mixed_nested_op(d) else ("rt-glued-bang" if has_glued_bang(d) else "rt-structure"))
+            key = "rt-param-value" if kc == 1 else ("rt-mixed-nested-op" if kc == 2 else ("rt-glued-bang" if has_glued_bang(d) else "rt-structure"))
             _fail(ctx, key, "write_tape(parse x) re-parses to a different tape (cfg %s): x=%r written=%r" % (cfg, x[:120], unhex(r.get("o1", "-"))[:160] if not r.get("o1", "").startswith("ERR") else r.get("o1")),
                      [rcases[k]], [o], "t2 = t1 = " + tape[:200])
         elif r.get("o2") != r.get("o1"):
             _fail(ctx, "rt-idempotent", "write . parse is not a fixed point (cfg %s): x=%r" % (cfg, x[:120]), [rcases[k]], [o], "o2 = o1")
         else:
             ctx.count("roundtrips_ok")
+            if kc == 2 and tape == docgen.flatten(d):
+                ctx.count("k14_class2_but_roundtrip_ok")      # K is meant to be exact: expected 0
     if not widen:
         probe_bom_key(ctx)
+        probe_k14(ctx)
     # >>> a_wr (wave 4): reused writers, write_tape at depth, inner()/into_inner(), builder defaults
     from props import C14_reuse
     C14_reuse.run(ctx, _fail)
@@ -270,6 +281,43 @@ def probe_bom_key(ctx):
     r = dict(p.split("=", 1) for p in o.split(" | ") if "=" in p)
     if r.get("t1") is not None and r.get("t2") != r.get("t1"):
         _fail(ctx, "rt-bom-key", "a first key starting with EF BB BF is stripped as a BOM when the written text is re-parsed: t1=%s t2=%s" % (r.get("t1"), r.get("t2")), [case], [o], "t2 = t1")
+
+
+def probe_k14(ctx):
+    """w_wr (wave 5): the witnesses of Props/C14_mixcont.v replayed on the implementation every run: the class-2 document
+    fails (known finding), the two class-0 documents next to the boundary of K must round-trip"""
+    D = docgen
+    u = lambda b: D.S("u", b)
+    docs = [
+        (D.Doc([D.Field(u(b"a"), "=", D.Arr([u(b"1")], [D.Field(u(b"b"), "=", D.Obj([D.Field(u(b"c"), "<", u(b"d"))]))]))]), 2),
+        (D.Doc([D.Field(u(b"a"), "=", D.Arr([u(b"1")], [D.Field(u(b"b"), "=", D.Obj([D.Field(u(b"x"), "=", D.Arr([u(b"2")])), D.Field(u(b"c"), "<", u(b"d"))]))]))]), 0),
+        (D.Doc([D.Field(u(b"a"), "=", D.Arr([u(b"1")], [D.Field(u(b"b"), "=", D.Obj([D.Field(u(b"c"), "=", u(b"d"))])), D.Field(u(b"e"), "<", u(b"f")),
+                                                         D.Field(u(b"g"), "=", D.Arr([u(b"2"), u(b"3")])), D.Field(u(b"h"), "=", u(b"i"))]))]), 0),
+        # the flag is lost after `{x}`: the operator inside the SECOND container value is written by the object protocol
+        (D.Doc([D.Field(u(b"a"), "=", D.Arr([u(b"1")], [D.Field(u(b"b"), "=", D.Arr([u(b"x")])), D.Field(u(b"c"), "=", D.Obj([D.Field(u(b"d"), "<", u(b"e")), D.Field(u(b"f"), "!=", u(b"g"))])),
+                                                         D.Field(u(b"h"), ">=", D.Arr([u(b"2"), D.Arr([u(b"3")])], [D.Field(u(b"i"), "=", D.Obj([D.Field(u(b"j"), "=", u(b"k"))])), D.Field(u(b"l"), "==", u(b"m"))]))]))]), 0),
+    ]
+    # the dirty stretch ends at the FIRST closing brace whatever it closes: an empty container, an object
+    docs.append((D.Doc([D.Field(u(b"a"), "=", D.Arr([u(b"1")], [D.Field(u(b"b"), "=", D.Obj([D.Field(u(b"x"), "=", D.Arr([])), D.Field(u(b"c"), "<", u(b"d"))]))]))]), 0))
+    docs.append((D.Doc([D.Field(u(b"a"), "=", D.Arr([u(b"1")], [D.Field(u(b"b"), "=", D.Obj([D.Field(u(b"x"), "=", D.Obj([D.Field(u(b"p"), "=", u(b"q"))])), D.Field(u(b"c"), "<", u(b"d"))]))]))]), 0))
+    # the parser re-inserts the marker after an empty / array-first container value: the flag is on again (k14p = 2, k14 = 0)
+    docs.append((D.Doc([D.Field(u(b"a"), "=", D.Arr([u(b"1")], [D.Field(u(b"b"), "=", D.Arr([])), D.Field(u(b"e"), "=", D.Obj([D.Field(u(b"f"), "<", u(b"g"))]))]))]), 2))
+    docs.append((D.Doc([D.Field(u(b"a"), "=", D.Arr([u(b"1")], [D.Field(u(b"b"), "=", D.Arr([D.Arr([u(b"2")])])), D.Field(u(b"e"), "=", D.Obj([D.Field(u(b"f"), "<", u(b"g"))]))]))]), 2))
+    from props import W5
+    cl = W5.kclasses(ctx, [d for d, _ in docs], stream="probe_k14")
+    cases = ["writer.rt\t32,1,r\t" + hexs(D.render(d, "min")) for d, _ in docs]
+    impl, _ = ctx.correspond("probe_k14", cases, model=False, nontrivial=lambda c, i: True)
+    for k, (d, want) in enumerate(docs):
+        o = impl[len(impl) - len(cases) + k]
+        r = parse_rt(o)
+        got = cl[k][3] if cl[k] else None
+        if got != want:
+            ctx.broken.append({"what": "classifier k14_class gives %s on the witness %d of Props/C14_mixcont.v (expected %d)" % (got, k, want)})
+        ok = "t1" in r and r.get("t2") == r.get("t1") and r.get("o2") == r.get("o1")
+        if want == 0 and not ok:
+            _fail(ctx, "rt-structure", "a list with container values OUTSIDE the class K does not round-trip: %r" % D.render(d, "min"), [cases[k]], [o], "t2 = t1, o2 = o1")
+        if want == 2 and not ok:
+            _fail(ctx, "rt-mixed-nested-op", "known finding replayed: %r re-parses to a different tape" % D.render(d, "min"), [cases[k]], [o], "t2 = t1")
 
 
 def search(ctx):
